@@ -156,6 +156,7 @@ type c16Op struct {
 	whence int
 	off    int
 	n      int
+	drain  bool // Read(n) again and again until EOF or an error (bounded); printed as single reads
 }
 
 type c16Case struct {
@@ -371,15 +372,22 @@ func (e *c16Env) run(k int, seed uint64, c *c16Case) {
 						out.Line("op seek %s %d %d", "sce"[op.whence:op.whence+1], op.off, pos)
 					}
 				} else {
-					buf := make([]byte, op.n)
-					n, err := rc.Read(buf)
-					switch {
-					case err == io.EOF && n == 0:
-						out.Line("op read %d eof", op.n)
-					case err != nil && err != io.EOF:
-						out.Line("op read %d err", op.n)
-					default:
-						out.Line("op read %d %s", op.n, verifx.Hex(buf[:n]))
+					for round := 0; round < 40; round++ {
+						buf := make([]byte, op.n)
+						n, err := rc.Read(buf)
+						stop := true
+						switch {
+						case err == io.EOF && n == 0:
+							out.Line("op read %d eof", op.n)
+						case err != nil && err != io.EOF:
+							out.Line("op read %d err", op.n)
+						default:
+							out.Line("op read %d %s", op.n, verifx.Hex(buf[:n]))
+							stop = !op.drain || n == 0
+						}
+						if stop {
+							break
+						}
 					}
 				}
 			}
@@ -415,7 +423,10 @@ func c16UseAfterError(css, n int) []c16Op {
 			visit(j+1, 1)
 		}
 	}
-	ops = append(ops, c16Op{seek: true, whence: 0, off: 0}, c16Op{n: 2 * css}, c16Op{n: 2 * css}, c16Op{n: 2 * css})
+	// a second pass over the whole part on the same reader, to its end, and once more
+	ops = append(ops, c16Op{seek: true, whence: 0, off: 0}, c16Op{n: 2 * css, drain: true},
+		c16Op{seek: true, whence: 0, off: 0}, c16Op{n: 2 * css, drain: true},
+		c16Op{seek: true, whence: 2, off: 0}, c16Op{n: 8})
 	return ops
 }
 
@@ -695,7 +706,7 @@ func runC16(args []string) {
 					}
 					c.ops = append(c.ops, c16Op{seek: true, whence: wh, off: off})
 				} else {
-					c.ops = append(c.ops, c16Op{n: 1 + r.Intn(2*css)})
+					c.ops = append(c.ops, c16Op{n: 1 + r.Intn(2*css), drain: r.Chance(1, 4)})
 				}
 			}
 		}
